@@ -107,6 +107,33 @@ func (c *Poseidon1Circuit) Define(api frontend.API) error {
 	return nil
 }
 
+// PoseidonMixCircuit: both arities in one circuit definition, in both orders — the identity
+// commitment pattern H1(H2(a, b)) and H2(H1(a), b).
+type PoseidonMixCircuit struct{ A, B, H2ab, H1h2, H1a, H2h1b frontend.Variable }
+
+func (c *PoseidonMixCircuit) Define(api frontend.API) error {
+	h2 := abstractor.Call(api, poseidon.Poseidon2{In1: c.A, In2: c.B})
+	api.AssertIsEqual(h2, c.H2ab)
+	h1 := abstractor.Call(api, poseidon.Poseidon1{In: h2})
+	api.AssertIsEqual(h1, c.H1h2)
+	g1 := abstractor.Call(api, poseidon.Poseidon1{In: c.A})
+	api.AssertIsEqual(g1, c.H1a)
+	g2 := abstractor.Call(api, poseidon.Poseidon2{In1: g1, In2: c.B})
+	api.AssertIsEqual(g2, c.H2h1b)
+	return nil
+}
+
+// PoseidonMixCircuitRev: the one-input hash first.
+type PoseidonMixCircuitRev struct{ A, B, H1a, H2h1b frontend.Variable }
+
+func (c *PoseidonMixCircuitRev) Define(api frontend.API) error {
+	g1 := abstractor.Call(api, poseidon.Poseidon1{In: c.A})
+	api.AssertIsEqual(g1, c.H1a)
+	g2 := abstractor.Call(api, poseidon.Poseidon2{In1: g1, In2: c.B})
+	api.AssertIsEqual(g2, c.H2h1b)
+	return nil
+}
+
 // KeccakCircuit: NewKeccak256 / NewSHA3_256 over In (bits), output asserted equal to Out.
 type KeccakCircuit struct {
 	In     []frontend.Variable
